@@ -298,7 +298,12 @@ def run_one(name, m, text, acc, cs, job):
         raise
     except BaseException as e:     # SystemExit and KeyboardInterrupt included: they are outcomes to classify
         exc = unwrap(e)
-        if isinstance(exc, (lark.exceptions.LarkError, ValueError)) and not isinstance(exc, (UnicodeError,)):
+        if isinstance(exc, CaseTimeout):
+            steps_off()
+            raise exc              # the watchdog fired inside a transformer callback (lark wrapped it): inconclusive
+        if isinstance(exc, StepBound):
+            outcome = "step-bound"  # the step cap was hit inside a transformer callback
+        elif isinstance(exc, (lark.exceptions.LarkError, ValueError)) and not isinstance(exc, (UnicodeError,)):
             outcome = "rejected"
         else:
             outcome = "internal-error"
